@@ -13,7 +13,7 @@ import (
 
 //vp:property C09 C06
 //vp:flag lockset
-//vp:bounds two websocket tunnels A and B on one Gateway: each does the full set-up (4 packets), one DATA packet and then ends by an out-of-order packet (error response) while its backend has sent one chunk and stays open; idle timeout arbitrary (incl. negative); client writes may stall (the tunnel's other goroutines run while a packet is in flight); logical threads: handler A, handler B, relay goroutine of A, relay goroutine of B
+//vp:bounds two websocket tunnels A and B on one Gateway: each does the full set-up (4 packets), one DATA packet and then ends by an out-of-order packet (error response) while its backend has sent one chunk and then either stays open or hangs up first (so the relay goroutine ends while the packet loop is still serving the client); idle timeout arbitrary (incl. negative); client writes may stall (the tunnel's other goroutines run while a packet is in flight); logical threads: handler A, handler B, relay goroutine of A, relay goroutine of B
 //vp:assume websocket/hijacked connections allow one concurrent writer (gorilla docs): the client transport's write log is the contended location; net.Conn, prometheus gauges and go-cache are safe for concurrent use
 //vp:reach done
 func VP_C09_ws() {
@@ -27,6 +27,7 @@ func VP_C09_ws() {
 	tA := &Tunnel{RDGId: "conn-A", User: vpUser(), RemoteAddr: "10.0.0.1:1"}
 	tB := &Tunnel{RDGId: "conn-B", User: vpUser(), RemoteAddr: "10.0.0.2:1"}
 	vpBackendChunk = []byte{1, 2, 3}
+	vpBackendHangsUp = vpBool("hosts-hang-up-after-their-chunk")
 	vpPar(func() {
 		vpThread("A")
 		vpNextTransportFor(trA)
